@@ -35,6 +35,14 @@ impl MatchGeneratorDriver {
     }
 }
 
+#[cfg(feature = "verif_hooks")]
+impl MatchGeneratorDriver {
+    /// Verification-only public constructor (the regular one is crate-private), allowing small slice sizes.
+    pub fn verif_new(slice_size: usize, max_slices_in_window: usize) -> Self {
+        Self::new(slice_size, max_slices_in_window)
+    }
+}
+
 impl Matcher for MatchGeneratorDriver {
     fn reset(&mut self, _level: CompressionLevel) {
         let vec_pool = &mut self.vec_pool;
